@@ -198,8 +198,15 @@ def step (H : Ser → List Char) (s : St) : Ev → St × Option (List Char)
     else
     -- registration bumps the generation; the new function object is an instance of its own;
     -- instances wrapping the previous object of that name are no longer live (they stay in the list)
-    ({ s with sym := bind s.sym n b, next := s.next + 1, hist := b :: s.hist, gen := s.gen + 1,
-              insts := s.insts ++ [⟨n, s.next, none, [], []⟩] }, none)
+    let inst : Inst := ⟨n, s.next, none, [], []⟩
+    let s1 : St := { s with sym := bind s.sym n b, next := s.next + 1, hist := b :: s.hist, gen := s.gen + 1,
+                            insts := s.insts ++ [inst] }
+    match e with
+    | some _ => (s1, none)                 -- explicit version: the reference is static, nothing is computed
+    | none =>
+      -- `register_function` asks the new object for its reference, which computes its version, rules and watch list and
+      -- writes the cache entry (see the header for the one difference: a function that refers to its own name)
+      ((recompute H s1 s.insts.length inst).1, none)
   | .defPlain n tok refs =>
     let b : Bound := ⟨s.next, .plain true tok refs⟩
     ({ s with sym := bind s.sym n b, next := s.next + 1, hist := b :: s.hist }, none)
